@@ -15,6 +15,13 @@ def correspond(c, seed, n, tier, extra=None, name="c16"):
     """harness on the implementation, then model and declarative oracle on the same lines.
     Returns (ok, mism, smism, stats)."""
     exe_h, hlog = V.build_harness("c16")
+    for _ in range(4):
+        # harness/go.mod is shared by all checks and rewritten by `go build -mod=mod`; a concurrent build of
+        # another check makes go give up with this message: try again
+        if exe_h is None and ("existing contents have changed" in hlog or "go.mod" in hlog and "locked" in hlog):
+            import time
+            time.sleep(2)
+            exe_h, hlog = V.build_harness("c16")
     if exe_h is None:
         c.broken_correspondence("harness-build", None, V.tail(hlog, 40))
         return False, [], [], {}
@@ -38,7 +45,7 @@ def run(tier, seed, extra=None):
         "More = next byte is neither ] nor }); the harness tokenises every input with the same decoder",
         "the link between file bytes and (values, malformed?) is encoding/json's (C17 covers error positions)",
         "os.Open/os.ReadFile/io.ReadAll/bufio.ReadString read the bytes of the file",
-        "Go map iteration order is irrelevant because mapKeys keeps flag names globally unique (proved: args_names_nodup)",
+        "Go map iteration order is irrelevant because mapKeys keeps flag names globally unique (proved: C16_args_binding)",
         "a cut inside a number literal whose prefix is a number is judged against the stream in which the literal ends "
         "at the cut (the truncated text is a truncation of both; no implementation can tell them apart)",
     ]
